@@ -51,6 +51,17 @@ theorem nb_cons (bad : Action → Bool) (out : List Action) (a : Action) (ha : b
   · exact ha
   · exact h b hb
 
+/-- the part of `Neutral` about moves and deletes -/
+structure Neutral0 (bad : Action → Bool) : Prop where
+  move : ∀ a b c, bad (.moveNode a b c) = false
+  del : ∀ p, bad (.deleteNode p) = false
+
+theorem Neutral.to0 {bad : Action → Bool} (h : Neutral bad) : Neutral0 bad := ⟨h.move, h.del⟩
+
+/-- the attribute actions the visit of a right node with payload `x` may emit pass the test -/
+def AttrFits (bad : Action → Bool) (x : Payload) : Prop :=
+  ∀ (ign : List Str) (path : Path) (las : Attrs) (out : List Action), NB bad out (updateAttrs ign path las x.attrs out).2
+
 theorem updateAttrs_nb (bad : Action → Bool) (hn : Neutral bad) (ign : List Str) (path : Path) (las ras : Attrs) (out : List Action)
     (hr : (keys ras).Nodup) : NB bad out (updateAttrs ign path las ras out).2 := by
   obtain ⟨acts, h⟩ := updateAttrs_phase ign path las ras out hr
@@ -61,8 +72,8 @@ theorem updateAttrs_nb (bad : Action → Bool) (hn : Neutral bad) (ign : List St
   · exact hn.attr path a (h.on a ha).1
   · exact h0 a ha
 
-theorem updateAttrStep_nb (bad : Action → Bool) (hn : Neutral bad) (qn : QName) (ign : List Str) (l : Nat) (x : Payload) (s s' : DState)
-    (hx : (keys x.attrs).Nodup) (h : updateAttrStep qn ign l x s = .ok s') : NB bad s.out s'.out := by
+theorem updateAttrStep_nb (bad : Action → Bool) (qn : QName) (ign : List Str) (l : Nat) (x : Payload) (s s' : DState)
+    (hA : AttrFits bad x) (h : updateAttrStep qn ign l x s = .ok s') : NB bad s.out s'.out := by
   unfold updateAttrStep at h
   split at h
   · cases h
@@ -71,14 +82,14 @@ theorem updateAttrStep_nb (bad : Action → Bool) (hn : Neutral bad) (qn : QName
     split at h
     · cases h
     · next path hpath =>
-      have := updateAttrs_nb bad hn ign path ln.payload.attrs x.attrs s.out hx
+      have := hA ign path ln.payload.attrs s.out
       generalize updateAttrs ign path ln.payload.attrs x.attrs s.out = res at h this
       obtain ⟨las, out⟩ := res
       simp only [Except.ok.injEq] at h
       subst h
       exact this
 
-theorem updateText_nb (bad : Action → Bool) (hn : Neutral bad) (qn : QName) (l : Nat) (x : Payload) (s s' : DState)
+theorem updateText_nb (bad : Action → Bool) (hn : Neutral0 bad) (qn : QName) (l : Nat) (x : Payload) (s s' : DState)
     (hw : Fits bad x) (h : updateText qn l x s = .ok s') : NB bad s.out s'.out := by
   unfold updateText at h
   split at h
@@ -103,7 +114,7 @@ theorem updateText_nb (bad : Action → Bool) (hn : Neutral bad) (qn : QName) (l
       · rw [if_neg h1, if_neg h2]
         exact NB.refl bad s.out
 
-theorem renameStep_nb (bad : Action → Bool) (hn : Neutral bad) (qn : QName) (l : Nat) (x : Payload) (s s' : DState)
+theorem renameStep_nb (bad : Action → Bool) (hn : Neutral0 bad) (qn : QName) (l : Nat) (x : Payload) (s s' : DState)
     (hw : Fits bad x) (h : renameStep qn l x s = .ok s') : NB bad s.out s'.out := by
   unfold renameStep at h
   split at h
@@ -120,7 +131,7 @@ theorem renameStep_nb (bad : Action → Bool) (hn : Neutral bad) (qn : QName) (l
       subst h
       exact NB.refl bad s.out
 
-theorem insertStep_nb (bad : Action → Bool) (hn : Neutral bad) (qn : QName) (R x : Tree) (lt : Option Nat) (s s' : DState) (l : Nat)
+theorem insertStep_nb (bad : Action → Bool) (hn : Neutral0 bad) (qn : QName) (R x : Tree) (lt : Option Nat) (s s' : DState) (l : Nat)
     (hw : Fits bad x.payload) (h : insertStep qn R x lt s = .ok (l, s')) : NB bad s.out s'.out := by
   cases lt with
   | none =>
@@ -138,7 +149,7 @@ theorem insertStep_nb (bad : Action → Bool) (hn : Neutral bad) (qn : QName) (R
         · exact nb_cons bad s.out _ (hw.ins _ _)
         · exact nb_cons bad s.out _ (hw.insc _ _)
 
-theorem moveStep_nb (bad : Action → Bool) (hn : Neutral bad) (qn : QName) (R x : Tree) (l : Nat) (lt : Option Nat) (s s' : DState)
+theorem moveStep_nb (bad : Action → Bool) (hn : Neutral0 bad) (qn : QName) (R x : Tree) (l : Nat) (lt : Option Nat) (s s' : DState)
     (h : moveStep qn R x l lt s = .ok s') : NB bad s.out s'.out := by
   unfold moveStep at h
   simp only at h
@@ -166,7 +177,7 @@ theorem moveStep_nb (bad : Action → Bool) (hn : Neutral bad) (qn : QName) (R x
     subst h
     exact NB.refl bad _
 
-theorem alignMoves_nb (bad : Action → Bool) (hn : Neutral bad) (qn : QName) (R : Tree) (l : Nat) (lcs : List Nat) (s s' : DState)
+theorem alignMoves_nb (bad : Action → Bool) (hn : Neutral0 bad) (qn : QName) (R : Tree) (l : Nat) (lcs : List Nat) (s s' : DState)
     (h : alignMoves qn R l lcs s = .ok s') : NB bad s.out s'.out := by
   induction lcs generalizing s with
   | nil =>
@@ -199,7 +210,7 @@ theorem alignMoves_nb (bad : Action → Bool) (hn : Neutral bad) (qn : QName) (R
                   · have h1 := ih _ h
                     exact (nb_cons bad s.out _ (hn.move _ _ _)).trans h1
 
-theorem alignChildren_nb (bad : Action → Bool) (hn : Neutral bad) (qn : QName) (R : Tree) (l : Nat) (x : Tree) (s s' : DState)
+theorem alignChildren_nb (bad : Action → Bool) (hn : Neutral0 bad) (qn : QName) (R : Tree) (l : Nat) (x : Tree) (s s' : DState)
     (h : alignChildren qn R l x s = .ok s') : NB bad s.out s'.out := by
   unfold alignChildren at h
   split at h
@@ -213,7 +224,7 @@ theorem alignChildren_nb (bad : Action → Bool) (hn : Neutral bad) (qn : QName)
         exact this
       · cases h
 
-theorem visitTail_nb (bad : Action → Bool) (hn : Neutral bad) (qn : QName) (R x : Tree) (l : Nat) (s1 s' : DState)
+theorem visitTail_nb (bad : Action → Bool) (hn : Neutral0 bad) (qn : QName) (R x : Tree) (l : Nat) (s1 s' : DState)
     (hw : Fits bad x.payload)
     (h : visitTail qn R l x s1 = .ok s') : NB bad s1.out s'.out := by
   unfold visitTail at h
@@ -226,8 +237,8 @@ theorem visitTail_nb (bad : Action → Bool) (hn : Neutral bad) (qn : QName) (R 
     · next l' hl' => exact a.trans (updateText_nb bad hn qn l' x.payload s2 s' hw h)
     · cases h
 
-theorem visit_nb (bad : Action → Bool) (hn : Neutral bad) (qn : QName) (cfg : Cfg) (R x : Tree) (s s' : DState)
-    (hx : (keys x.payload.attrs).Nodup) (hw : Fits bad x.payload)
+theorem visit_nb (bad : Action → Bool) (hn : Neutral0 bad) (qn : QName) (cfg : Cfg) (R x : Tree) (s s' : DState)
+    (hA : AttrFits bad x.payload) (hw : Fits bad x.payload)
     (h : visit qn cfg R x s = .ok s') : NB bad s.out s'.out := by
   unfold visit at h
   simp only [bind, Except.bind] at h
@@ -241,7 +252,7 @@ theorem visit_nb (bad : Action → Bool) (hn : Neutral bad) (qn : QName) (cfg : 
       split at h
       · cases h
       · next s2 hs2 =>
-        have b := updateAttrStep_nb bad hn qn cfg.ignored l x.payload s1 s2 hx hs2
+        have b := updateAttrStep_nb bad qn cfg.ignored l x.payload s1 s2 hA hs2
         have c := visitTail_nb bad hn qn R x l s2 s' hw h
         exact (a.trans b).trans c
   · next l hl =>
@@ -256,12 +267,12 @@ theorem visit_nb (bad : Action → Bool) (hn : Neutral bad) (qn : QName) (cfg : 
         split at h
         · cases h
         · next s3 hs3 =>
-          have c := updateAttrStep_nb bad hn qn cfg.ignored l x.payload s2 s3 hx hs3
+          have c := updateAttrStep_nb bad qn cfg.ignored l x.payload s2 s3 hA hs3
           have d := visitTail_nb bad hn qn R x l s3 s' hw h
           exact ((a.trans b).trans c).trans d
 
-theorem visitAll_nb (bad : Action → Bool) (hn : Neutral bad) (qn : QName) (cfg : Cfg) (R : Tree) (xs : List Tree) (s s' : DState)
-    (hx : ∀ x ∈ xs, (keys x.payload.attrs).Nodup ∧ Fits bad x.payload)
+theorem visitAll_nb (bad : Action → Bool) (hn : Neutral0 bad) (qn : QName) (cfg : Cfg) (R : Tree) (xs : List Tree) (s s' : DState)
+    (hx : ∀ x ∈ xs, AttrFits bad x.payload ∧ Fits bad x.payload)
     (h : visitAll qn cfg R xs s = .ok s') : NB bad s.out s'.out := by
   induction xs generalizing s with
   | nil =>
@@ -275,7 +286,7 @@ theorem visitAll_nb (bad : Action → Bool) (hn : Neutral bad) (qn : QName) (cfg
       have hx0 := hx x (by simp)
       exact (visit_nb bad hn qn cfg R x s s1 hx0.1 hx0.2 hs1).trans (ih s1 (fun y hy => hx y (by simp [hy])) h)
 
-theorem deleteAll_nb (bad : Action → Bool) (hn : Neutral bad) (qn : QName) (ls : List Nat) (s s' : DState)
+theorem deleteAll_nb (bad : Action → Bool) (hn : Neutral0 bad) (qn : QName) (ls : List Nat) (s s' : DState)
     (h : deleteAll qn ls s = .ok s') : NB bad s.out s'.out := by
   induction ls generalizing s with
   | nil =>
@@ -298,10 +309,11 @@ theorem neutral_badT (w : Option Str → Bool) : Neutral (badT w) :=
 theorem neutral_badTag (w : Str → Bool) : Neutral (badTag w) :=
   ⟨fun p a h => by cases a <;> simp_all [IsAttrOn, badTag], fun _ _ _ => rfl, fun _ => rfl⟩
 
-/-- **Every action of the script passes a test that everything a right node can give rise to passes.** -/
-theorem scriptGen_fits (bad : Action → Bool) (hn : Neutral bad) (qn : QName) (cfg : Cfg) (L R : Tree) (M : List (Nat × Nat))
+/-- **Every action of the script passes a test that everything a right node can give rise to passes** (attribute
+actions included: `AttrFits`). -/
+theorem scriptGen_fitsA (bad : Action → Bool) (hn : Neutral0 bad) (qn : QName) (cfg : Cfg) (L R : Tree) (M : List (Nat × Nat))
     (fresh : Nat) (script : List Action) (final : Tree)
-    (hR : ∀ x ∈ Tree.bfs R, (keys x.payload.attrs).Nodup ∧ Fits bad x.payload)
+    (hR : ∀ x ∈ Tree.bfs R, AttrFits bad x.payload ∧ Fits bad x.payload)
     (h : scriptGen qn cfg L R M fresh = .ok (script, final)) : ∀ a ∈ script, bad a = false := by
   unfold scriptGen at h
   simp only [bind, Except.bind, pure, Except.pure] at h
@@ -317,6 +329,15 @@ theorem scriptGen_fits (bad : Action → Bool) (hn : Neutral bad) (qn : QName) (
       have b := deleteAll_nb bad hn qn _ s1 s2 hs2
       intro x hx
       exact (a.trans b) (fun y hy => by cases hy) x (List.mem_reverse.1 hx)
+
+/-- the same for a test that every attribute action passes -/
+theorem scriptGen_fits (bad : Action → Bool) (hn : Neutral bad) (qn : QName) (cfg : Cfg) (L R : Tree) (M : List (Nat × Nat))
+    (fresh : Nat) (script : List Action) (final : Tree)
+    (hR : ∀ x ∈ Tree.bfs R, (keys x.payload.attrs).Nodup ∧ Fits bad x.payload)
+    (h : scriptGen qn cfg L R M fresh = .ok (script, final)) : ∀ a ∈ script, bad a = false :=
+  scriptGen_fitsA bad hn.to0 qn cfg L R M fresh script final
+    (fun x hx => ⟨fun ign path las out => updateAttrs_nb bad hn ign path las x.payload.attrs out (hR x hx).1,
+      (hR x hx).2⟩) h
 
 end Texts
 end XmlDiffModel
